@@ -92,6 +92,13 @@ Definition can_edit (x : target) : bool := has_perm EDIT x.
 Definition to_json_objects (objs : list nat) : option (list nat) :=
   if forallb (fun o => can_view (TObj o)) objs then Some objs else None.
 
+(* the schema section of to_json (Database._get_schema_dict): an entity is listed iff the user can view it; an attribute of a listed
+   entity is listed iff the user can view it and - for a relationship - can view the entity and the attribute on the other side *)
+Definition schema_entity (e : nat) : bool := can_view (TEntity e).
+Definition schema_attr (a : nat) : bool :=
+  can_view (TEntity (attr_ent a)) && can_view (TAttr a)
+  && match attr_rev a with None => true | Some rv => can_view (TEntity (attr_ent rv)) && can_view (TAttr rv) end.
+
 (* to_json([obj], include=[relationship]): the objects reached through the included relationship are serialised with it and go
    through the same can_view test, whether they were already loaded or are loaded by to_json itself *)
 Definition to_json_include (related : nat -> list nat) (o : nat) : option (list nat) := to_json_objects (o :: related o).
@@ -197,3 +204,19 @@ Fixpoint checks (c : caches) (h : list (nat * nat * target)) : list bool :=
   | (t, p, x) :: r => let '(c', b) := check c t p x in b :: checks c' r
   end.
 End Stable.
+
+(* ---------------------------------------------------------------------------------------------
+   declaring rules: `with db.set_perms_for(E1, ...): perm(...).exclude(...)`.
+   set_perms_for adds the subclasses of the named entities to the context; AccessRule.__init__ puts the rule into
+   entity._access_rules_[perm] of every entity of the context; exclude(Entity) excludes the entity and its subclasses.
+   A declaration is data; `subs e` = the (transitive) subclasses of e known when the declaration is made. *)
+Record decl := mkdecl { d_ctx : list nat; d_perms : list nat; d_rule : rule (* with the excluded entities as written *) }.
+
+Definition close_subs (subs : nat -> list nat) (es : list nat) : list nat := es ++ flat_map subs es.
+
+Definition expand (subs : nat -> list nat) (d : decl) : rule :=
+  let r := d_rule d in mkrule (r_groups r) (r_roles r) (r_labels r) (close_subs subs (r_exclE r)) (r_exclA r).
+
+(* entity._access_rules_[perm] after the declarations ds (in declaration order) *)
+Definition rules_of_decls (subs : nat -> list nat) (ds : list decl) (e p : nat) : list rule :=
+  map (expand subs) (filter (fun d => mem e (close_subs subs (d_ctx d)) && mem p (d_perms d)) ds).
